@@ -16,6 +16,7 @@ import (
 	"encoding/json"
 	"fmt"
 	"hash/fnv"
+	"math"
 	"os"
 	osexec "os/exec"
 	"reflect"
@@ -95,122 +96,169 @@ func outcome(b []byte) {
 
 // --- deep state hash -------------------------------------------------------------
 
-func deepHash(h *bytes.Buffer, v reflect.Value, seen map[uintptr]bool, depth int) {
+// hasher is a running 64-bit FNV-1a style mix (no allocation per value).
+type hasher struct{ h uint64 }
+
+func newHasher() *hasher { return &hasher{14695981039346656037} }
+func (h *hasher) mix(u uint64) {
+	h.h = (h.h ^ u) * 1099511628211
+	h.h = (h.h ^ (u >> 32)) * 1099511628211
+}
+func (h *hasher) str(s string) {
+	for i := 0; i < len(s); i++ {
+		h.h = (h.h ^ uint64(s[i])) * 1099511628211
+	}
+	h.mix(uint64(len(s)))
+}
+
+func deepHash(h *hasher, v reflect.Value, seen map[uintptr]bool, depth int) {
 	if depth > 12 {
 		return
 	}
 	switch v.Kind() {
 	case reflect.Bool:
 		if v.Bool() {
-			h.WriteByte(1)
+			h.mix(1)
 		} else {
-			h.WriteByte(0)
+			h.mix(2)
 		}
 	case reflect.Int, reflect.Int8, reflect.Int16, reflect.Int32, reflect.Int64:
-		fmt.Fprintf(h, "i%d,", v.Int())
+		h.mix(uint64(v.Int()) + 0x9e37)
 	case reflect.Uint, reflect.Uint8, reflect.Uint16, reflect.Uint32, reflect.Uint64, reflect.Uintptr:
-		fmt.Fprintf(h, "u%d,", v.Uint())
+		h.mix(v.Uint() + 0x79b9)
 	case reflect.Float32, reflect.Float64:
-		fmt.Fprintf(h, "f%x,", v.Float())
+		h.mix(math.Float64bits(v.Float()) + 0x7f4a)
 	case reflect.Complex64, reflect.Complex128:
-		fmt.Fprintf(h, "c%v,", v.Complex())
+		c := v.Complex()
+		h.mix(math.Float64bits(real(c)))
+		h.mix(math.Float64bits(imag(c)))
 	case reflect.String:
-		fmt.Fprintf(h, "s%q,", v.String())
+		h.str(v.String())
 	case reflect.Ptr:
 		if v.IsNil() {
-			h.WriteString("nil,")
+			h.mix(0xdead)
 			return
 		}
 		if seen[v.Pointer()] {
-			h.WriteString("cyc,")
+			h.mix(0xc1c1)
 			return
 		}
 		seen[v.Pointer()] = true
-		h.WriteString("&")
+		h.mix(0xa11d)
 		deepHash(h, v.Elem(), seen, depth+1)
 	case reflect.Interface:
 		if v.IsNil() {
-			h.WriteString("nil,")
+			h.mix(0xdead)
 			return
 		}
-		fmt.Fprintf(h, "<%s>", v.Elem().Type())
+		h.str(v.Elem().Type().String())
 		deepHash(h, v.Elem(), seen, depth+1)
 	case reflect.Slice:
 		if v.IsNil() {
-			h.WriteString("nilslice,")
+			h.mix(0x5111)
 			return
 		}
-		fmt.Fprintf(h, "[%d/%d:", v.Len(), v.Cap())
+		h.mix(uint64(v.Len())<<32 | uint64(v.Cap()))
 		full := v.Slice(0, v.Cap())
+		switch full.Type().Elem().Kind() {
+		case reflect.Int:
+			if full.CanInterface() {
+				if s, ok := full.Interface().([]int); ok {
+					for _, x := range s {
+						h.mix(uint64(x) + 0x9e37)
+					}
+					return
+				}
+			}
+			for i, n := 0, full.Len(); i < n; i++ {
+				h.mix(uint64(full.Index(i).Int()) + 0x9e37)
+			}
+			return
+		case reflect.Float64:
+			if full.CanInterface() {
+				if s, ok := full.Interface().([]float64); ok {
+					for _, x := range s {
+						h.mix(math.Float64bits(x) + 0x7f4a)
+					}
+					return
+				}
+			}
+			for i, n := 0, full.Len(); i < n; i++ {
+				h.mix(math.Float64bits(full.Index(i).Float()) + 0x7f4a)
+			}
+			return
+		}
 		for i := 0; i < full.Len(); i++ {
 			deepHash(h, full.Index(i), seen, depth+1)
 		}
-		h.WriteString("]")
 	case reflect.Array:
 		for i := 0; i < v.Len(); i++ {
 			deepHash(h, v.Index(i), seen, depth+1)
 		}
 	case reflect.Map:
 		if v.IsNil() {
-			h.WriteString("nilmap,")
+			h.mix(0x3a90)
 			return
 		}
-		var items []string
+		// order independent: sum of per-entry hashes
+		var sum uint64
 		for _, k := range v.MapKeys() {
-			var b bytes.Buffer
-			deepHash(&b, k, seen, depth+1)
-			b.WriteString("=>")
-			deepHash(&b, v.MapIndex(k), seen, depth+1)
-			items = append(items, b.String())
+			e := newHasher()
+			deepHash(e, k, seen, depth+1)
+			deepHash(e, v.MapIndex(k), seen, depth+1)
+			sum += e.h
 		}
-		sort.Strings(items)
-		fmt.Fprintf(h, "map%d{%s}", v.Len(), strings.Join(items, ";"))
+		h.mix(sum)
+		h.mix(uint64(v.Len()))
 	case reflect.Struct:
-		h.WriteString("{")
+		h.mix(0x57)
 		for i := 0; i < v.NumField(); i++ {
 			deepHash(h, v.Field(i), seen, depth+1)
 		}
-		h.WriteString("}")
 	case reflect.Func, reflect.Chan, reflect.UnsafePointer:
 		if v.IsNil() {
-			h.WriteString("nil,")
+			h.mix(0xdead)
 		} else {
-			h.WriteString("fn,")
+			h.mix(0xf00c)
 		}
 	}
 }
 
 // pkgState hashes every registered package-level variable of the library.
 func pkgState() uint64 {
-	var b bytes.Buffer
+	h := newHasher()
 	st := verifhook.States()
-	var pkgs []string
+	pkgs := make([]string, 0, len(st))
 	for p := range st {
 		pkgs = append(pkgs, p)
 	}
 	sort.Strings(pkgs)
 	for _, p := range pkgs {
 		for _, v := range st[p]() {
-			b.WriteString(p + "." + v.Name + "=")
-			deepHash(&b, reflect.ValueOf(v.Ptr), map[uintptr]bool{}, 0)
-			b.WriteString("\n")
+			h.str(p)
+			h.str(v.Name)
+			deepHash(h, reflect.ValueOf(v.Ptr), map[uintptr]bool{}, 0)
 		}
 	}
-	h := fnv.New64a()
-	h.Write(b.Bytes())
-	return h.Sum64()
+	return h.h
 }
 
-func pkgStateDiff(before string) string { return "" }
+// fixDeep hashes every fixture by reflection, including unexported internals of
+// library objects (e.g. lazily built tables), without calling any method.
+func fixDeep(f *alpha.Fix) uint64 {
+	h := newHasher()
+	deepHash(h, reflect.ValueOf(f).Elem(), map[uintptr]bool{}, 0)
+	return h.h
+}
 
 // pkgStateText is the long form, used to name the variable that changed.
 func pkgStateText() map[string]string {
 	m := map[string]string{}
 	for p, f := range verifhook.States() {
 		for _, v := range f() {
-			var b bytes.Buffer
-			deepHash(&b, reflect.ValueOf(v.Ptr), map[uintptr]bool{}, 0)
-			m[p+"."+v.Name] = b.String()
+			h := newHasher()
+			deepHash(h, reflect.ValueOf(v.Ptr), map[uintptr]bool{}, 0)
+			m[p+"."+v.Name] = fmt.Sprintf("%x", h.h)
 		}
 	}
 	return m
@@ -413,6 +461,7 @@ type exec struct {
 	monitor    bool
 	lastState  uint64
 	lastFix    []byte
+	lastDeep   uint64
 	fix        *alpha.Fix
 	writes     []string
 	divergence string
@@ -506,11 +555,11 @@ func (x *exec) hook(id int) {
 	me := x.cur
 	if x.monitor {
 		x.inHarness = true
-		st, fx := pkgState(), x.fix.Snapshot()
+		st, fx, dp := pkgState(), x.fix.Snapshot(), fixDeep(x.fix)
 		x.inHarness = false
-		if st != x.lastState || !bytes.Equal(fx, x.lastFix) {
+		if st != x.lastState || !bytes.Equal(fx, x.lastFix) || dp != x.lastDeep {
 			x.writes = append(x.writes, fmt.Sprintf("thread %d (%s) before point %d", me, alpha.Entries[x.threads[me]].Name, id))
-			x.lastState, x.lastFix = st, fx
+			x.lastState, x.lastFix, x.lastDeep = st, fx, dp
 		}
 	}
 	next := x.decide(me, id)
@@ -526,7 +575,7 @@ func run(threads, devs []int, fix *alpha.Fix, monitor bool) *exec {
 	x := &exec{threads: threads, devs: devs, wake: make([]chan struct{}, n), done: make([]bool, n),
 		results: make([][]byte, n), panics: make([]string, n), fin: make(chan struct{}), monitor: monitor, fix: fix, blocked: make([]func() bool, n)}
 	if monitor {
-		x.lastState, x.lastFix = pkgState(), fix.Snapshot()
+		x.lastState, x.lastFix, x.lastDeep = pkgState(), fix.Snapshot(), fixDeep(fix)
 	}
 	cur = x
 	for t := 0; t < n; t++ {
@@ -545,11 +594,11 @@ func run(threads, devs []int, fix *alpha.Fix, monitor bool) *exec {
 			x.done[t] = true
 			if x.monitor {
 				x.inHarness = true
-				st, fx := pkgState(), x.fix.Snapshot()
+				st, fx, dp := pkgState(), x.fix.Snapshot(), fixDeep(x.fix)
 				x.inHarness = false
-				if st != x.lastState || !bytes.Equal(fx, x.lastFix) {
+				if st != x.lastState || !bytes.Equal(fx, x.lastFix) || dp != x.lastDeep {
 					x.writes = append(x.writes, fmt.Sprintf("thread %d (%s) before it returned", t, alpha.Entries[threads[t]].Name))
-					x.lastState, x.lastFix = st, fx
+					x.lastState, x.lastFix, x.lastDeep = st, fx, dp
 				}
 			}
 			next := x.decide(t, -1)
@@ -725,7 +774,8 @@ func modeSched(bound, nthreads, shard, nshards int, mode string, fresh [][]byte)
 		if exploreClean {
 			execs, capped = exploreCombo(th, bound, stepBudget, shard, nshards, fresh)
 		} else {
-			execs, capped = exploreCombo(th, bound, stepBudget, 0, 1, fresh) // not split: only the owner explores
+			// not split across shards (only the owner explores), so with a smaller budget
+			execs, capped = exploreCombo(th, bound, stepBudget/25, 0, 1, fresh)
 		}
 		out.States += execs
 		out.Validated += execs
